@@ -355,7 +355,7 @@ theorem rel_step (c : Cfg) (hc : c.cloneOwnsPoints = true) (hmo : c.mergeOwnsDic
             | none =>
                 cases hl : s.live
                 · refine ⟨hm, ?_⟩; rw [← hv]; simp [view, simulate, applyScn, updFn, Ne.symm hji, hsi]
-                · refine ⟨hm, ?_⟩; rw [← hv]; simp [view, simulate, applyScn, updFn, Ne.symm hji, hsi]
+                · refine ⟨hm, ?_⟩; rw [← hv]; simp [view, simulate, updFn, Ne.symm hji, hsi]
             | some si =>
                 have h1 := hI.refInj i j si s hsi hs
                 have h2 := hI.ptsOwn i si hsi; have h3 := hI.ptsOwn j s hs
@@ -365,7 +365,7 @@ theorem rel_step (c : Cfg) (hc : c.cloneOwnsPoints = true) (hmo : c.mergeOwnsDic
                 · refine ⟨hm, ?_⟩; rw [← hv]
                   simp [view, deref, simulate, applyScn, updFn, Ne.symm hji, hsi, hne, hne2, scnConsts, scnPts, mgrConsts, mgrPts]
                 · refine ⟨hm, ?_⟩; rw [← hv]
-                  simp [view, deref, simulate, applyScn, updFn, Ne.symm hji, hsi, hne, hne2, scnConsts, scnPts, mgrConsts, mgrPts]
+                  simp [view, deref, simulate, updFn, Ne.symm hji, hsi, hne, hne2, scnConsts, scnPts, mgrConsts, mgrPts]
   | evalBase =>
       simp only [step, soloStep]
       refine ⟨hm, ?_⟩
@@ -1092,6 +1092,13 @@ example :
        .add 2 1 noDict, .run 0, .configure 1 { noDict with pts := [(0, 3)] }, .reset 1, .step 1 { noDict with consts := [(6, 60)] } 2,
        .step 0 { noDict with pts := [(0, 7)] } 2, .evalBase, .run 2]) 1).map (fun s => (s.meqs, s.mpts, s.mrs.stop, s.memo.length))
     = some ([(5, 51), (6, 60)], [(0, 3), (1, 11)], 8, 1) := by decide
+
+/-- Non-vacuity of the partial theorems: a points-free history with base constants under an ALIASED points
+table on which slot 1 is a concrete non-trivial state (its own base constant, the base model's table). -/
+example :
+    (∀ op ∈ witnessMergeOps, ptsFree op = true) ∧
+    (view (exec ⟨false, false, true⟩ witnessBase witnessMergeOps) 1).map (fun s => (s.consts, s.meqs, s.mpts, s.memo.length))
+      = some ([(5, 50)], [(5, 50)], [(0, 1)], 1) := by decide
 
 #print axioms C06_full_of_good
 #print axioms C06_results
